@@ -34,6 +34,7 @@ func c09Exec(class string, m []byte) *core.Finding {
 	if len(m) > 0 {
 		tname = bind.TypeNames[m[0]>>4]
 	}
+	resetGlobals()
 	p, err, res := readPacket(bytes.NewReader(m), stepBudget(len(m)))
 	mk := func(c, what string) *core.Finding {
 		return &core.Finding{Class: class + "/" + c + "/" + tname, Sig: map[string]string{"mutation": class, "type": tname},
